@@ -2,7 +2,7 @@
 # usage: confirm_mutant.sh <dir with patch.diff + demo*.rs> <crate> [--suite]
 # Confirms in a scratch worktree: demo FAILS with the patch, PASSES without; optionally the crate's suite passes with it.
 D=$1; CRATE=${2:-fibre}; SUITE=${3:-}
-W=/tmp/mtc
+W=${MTC:-/tmp/mtc}
 [ -d $W/repo ] || { mkdir -p $W; git -C /repo worktree add -q --detach $W/repo HEAD || exit 2; }
 git -C $W/repo checkout -q --detach $(git -C /repo rev-parse HEAD); git -C $W/repo checkout -q -- .; git -C $W/repo clean -fdq -e target
 case $CRATE in fibre) SUB=channels;; fibre_cache) SUB=cache;; fibre_ioc) SUB=ioc;; fibre_logging) SUB=logging;; esac
